@@ -72,6 +72,8 @@ def run(ctx) -> None:
     r01_5(ctx)
     r01_6(ctx)
     r01_7(ctx)
+    r01_8(ctx)
+    r01_9(ctx)
     ctx.floor("merge_cells", 6)
     ctx.floor("yield_sites", 18)
     ctx.floor("source_loops", 4)
@@ -239,6 +241,74 @@ def r01_7(ctx) -> None:
                 ok = all(k and k <= {"sentinel", "self", "libinst"} for k in others) and len(others) >= 1
                 ctx.check(ok, "R01.7", u, e, "the item is compared by identity with a private sentinel only", node=n,
                           witness="operand origins: " + str([sorted(k) for k in kinds]))
+
+
+# public defaults that are part of "behaves like the stdlib namesake" (stdlib signature -> default)
+DEFAULTS = {
+    ("heapq.merge", "key"): None, ("heapq.merge", "reverse"): False,
+    ("heapq.nlargest", "key"): None, ("heapq.nsmallest", "key"): None,
+    ("builtins.zip", "strict"): False, ("builtins.enumerate", "start"): 0,
+    ("builtins.sorted", "key"): None, ("builtins.sorted", "reverse"): False,
+    ("builtins.min", "key"): None, ("builtins.max", "key"): None, ("builtins.sum", "start"): 0,
+    ("itertools.batched", "strict"): False, ("itertools.zip_longest", "fillvalue"): None,
+    ("itertools.tee", "n"): 2, ("itertools.Tee.__init__", "n"): 2,
+    ("functools.cache", None): None,
+}
+
+
+def r01_8(ctx) -> None:
+    """Default parameter values of the public tools equal those of their stdlib namesakes."""
+    ctx.rule("R01.8", "defaults of the public tools equal the stdlib's (reverse=False, strict=False, start=0, key=None, ...)")
+    for (short, pname), want in DEFAULTS.items():
+        if pname is None or not ctx.pkg.has_unit(short):
+            continue
+        u = ctx.unit(short)
+        a = u.node.args
+        pos = list(a.posonlyargs) + list(a.args)
+        dflt = dict(zip([p.arg for p in pos][len(pos) - len(a.defaults):], a.defaults))
+        dflt.update({p.arg: d for p, d in zip(a.kwonlyargs, a.kw_defaults) if d is not None})
+        d = dflt.get(pname)
+        ctx.count("defaults_checked")
+        ok = isinstance(d, ast.Constant) and d.value == want and type(d.value) is type(want)
+        ctx.check(ok, "R01.8", u, d if d is not None else f"{pname}",
+                  f"default of `{pname}` is {want!r} like the stdlib's", witness=norm(d) if d is not None else "no default")
+
+
+# tools that hand every pulled item (or its image) to the consumer before pulling again
+IMMEDIATE = ["itertools.cycle", "builtins.enumerate", "builtins.map", "itertools.starmap", "itertools.accumulate",
+             "_core._aiter_sync", "builtins.acallable_iterator"]
+
+
+def r01_9(ctx) -> None:
+    """Liveness: every ``yield`` of a tool is reachable, and the tools that map items one to one
+    yield between two pulls of their source (the first pass of ``cycle`` included)."""
+    from asl.flow import find_path, live_nodes, pretty_path
+    from .c05 import pull_nodes
+    ctx.rule("R01.9", "every yield of a tool is reachable; one-to-one tools yield between consecutive pulls")
+    for short in PASS_THROUGH + TRANSFORMING:
+        u = ctx.inlined(ctx.unit(short))
+        cfg = cfg_of(u)
+        alive = live_nodes(cfg)
+        dead = [n for n in cfg.nodes if n.kind == "yield" and not n.tag and n not in alive]
+        ctx.check(not dead, "R01.9", u, dead[0] if dead else "yields", "every yield is reachable (no loop that can never run)",
+                  node=dead[0] if dead else None)
+    for short in IMMEDIATE:
+        if not ctx.pkg.has_unit(short):
+            continue
+        u = ctx.inlined(ctx.unit(short))
+        cfg = cfg_of(u)
+        for p in pull_nodes(ctx, u):
+            if p.kind not in ("pull", "snext", "await"):
+                continue
+            starts = [s for (lab, s) in p.succ if lab == "n"]
+            for s0 in starts:
+                path = find_path(s0, lambda x: x is p or x is cfg.exit, avoid=lambda x: x.kind == "yield",
+                                 edge_ok=lambda a, lab, b: lab not in ("e", "p", "h"), include_src=False)
+                if s0.kind == "yield":
+                    path = None
+                ctx.count("immediate_pulls")
+                ctx.check(path is None, "R01.9", u, p, "the item just pulled is yielded before the source is pulled again "
+                          "(or the tool ends)", node=p, witness=pretty_path(path))
 
 
 def _eval_method(ctx, cls_short: str, mname: str, outcome: str, reverse: bool, a: str, b: str):
